@@ -18,7 +18,7 @@ EXPLANATION = (
     "dimension, read the rate from the state once, gate every position with it and leave ungated positions untouched "
     "(rate 0: nothing changes). (R5) the recombination driver over 0..5 parents x {None,Single,Both}^pairs. (R9) the "
     "validating constructors accept exactly their documented domain. Plus (R3) crate-wide K4 guard typestate on the "
-    "variation code and (R4) K14 taint from unordered samples to range bounds / empty gen_range. (INIT) init() evaluated with every field of self a distinct symbol inserts exactly the state types of a reviewed table, under the component's own instantiation, each built from exactly the documented field or empty / zero. NOT decided: lengths "
+    "variation code and (R4) K14 taint from unordered samples to range bounds / empty gen_range. (INIT) init() evaluated with every field of self a distinct symbol inserts exactly the state types of a reviewed table, under the component's own instantiation, each built from exactly the documented field or empty / zero. (R10) DEMutation::execute with exact floats: one unevaluated mutant per group of 2y+1 = base + F * (sum of the pair differences), the other members consumed, malformed populations rejected unchanged. NOT decided: lengths "
     "beyond the bound for the data-dependent helpers, unequal-length parents, frequencies of the stochastic choices.")
 ASSUMPTIONS = ["rand::seq::IteratorRandom::choose_multiple returns min(amount, len) distinct members in unspecified order (as documented)",
                "valid index tuples for circular swap are pairwise distinct and in range; valid populations have dimension >= 2 (> num_swap for SwapMutation)",
